@@ -574,3 +574,27 @@ def replay(mod, prop, path):
         return 1
     print('NOT REPRODUCED: the recorded input no longer fails on the current tree (suite %s, seed %s, tier %s)' % (want.get('suite'), rec.get('seed'), rec.get('tier')))
     return 0
+
+
+def child_problems(script, scenario, timeout=180):
+    """run a child-process scenario (harness/<script> <scenario>) against the same /repo; returns its list of problems (a child that fails is one)"""
+    import subprocess
+    child = os.path.join(ROOT, 'harness', script)
+    env = dict(os.environ, UDS_REPO=REPO, PYTHONPATH=REPO + os.pathsep + ROOT)
+    p = subprocess.run([sys.executable, child, scenario], stdout=subprocess.PIPE, stderr=subprocess.PIPE, text=True, env=env, timeout=timeout)
+    try:
+        return json.loads(p.stdout.strip().split('\n')[-1])
+    except Exception:  # noqa
+        return [{'input': '%s %s' % (script, scenario), 'observed': 'child failed: ' + (p.stderr or p.stdout)[-600:], 'required': 'the scenario runs to its end'}]
+
+
+def suite_user_code(scenario, site):
+    """a suite made of one child-process scenario of harness/user_child.py"""
+    s = Suite('user_code')
+    s.evaluations += 1
+    s.distinct.add(scenario)
+    s.exhaustive = True
+    for pr in child_problems('user_child.py', scenario):
+        s.fail({'site': site, 'class': scenario, 'input': pr['input'], 'observed': pr['observed'], 'required': pr['required']})
+    s.sample({'scenario': scenario})
+    return s
